@@ -208,3 +208,29 @@ def _replay_div(model, contract):
 for _k, _c in CONTRACTS.items():
     if "visit_BinOp" in _k:
         _c["replay_hook"] = _replay_div
+
+
+# ---- max / min in a parameter function (vector_max / vector_min): "accepted strings evaluate to the same value as ordinary real arithmetic": the result is an
+# argument, and no argument is larger (smaller) -- for one, two and three scalar arguments of any sign
+def _env_args(n):
+    def make(it):
+        xs = [z3.Real("x%d" % i) for i in range(n)]
+        env = {"args": tuple(xs)}
+        env.update({"x%d" % i: x for i, x in enumerate(xs)})
+        return env
+
+    return make
+
+
+for _n in (1, 2, 3):
+    _xs = ["x%d" % i for i in range(_n)]
+    for _fn, _cmp, _word in (("vector_max", ">=", "largest"), ("vector_min", "<=", "smallest")):
+        CONTRACTS["function_parser:%s#n%d" % (_fn, _n)] = dict(
+            schema=schema, make_env=_env_args(_n),
+            ensures=[("C19.the_result_is_the_%s_argument" % _word, "(" + " or ".join("result == %s" % x for x in _xs) + ") and " + " and ".join("result %s %s" % (_cmp, x) for x in _xs))],
+            defined_props=["C19"])
+for _fn, _cmp, _word in (("vector_max", ">=", "largest"), ("vector_min", "<=", "smallest")):
+    CONTRACTS["function_parser:%s#array_and_scalar" % _fn] = dict(
+        schema=schema, ghost_params={"a": "arr1:1", "s": "real"}, make_env=lambda it: {"args": (it.pre_env["a"], it.pre_env["s"])},
+        ensures=[("C19.the_result_is_the_%s_argument_element_by_element" % _word, "(result[0] == a[0] or result[0] == s) and result[0] %s a[0] and result[0] %s s" % (_cmp, _cmp))],
+        defined_props=["C19"])
